@@ -51,7 +51,7 @@ type Scenario struct {
 	Prefill   int     `json:"prefill,omitempty"`   // elements already sitting in the (buffered) input 0 when the stage is created
 	PreCancel bool    `json:"precancel,omitempty"` // the context is already cancelled when the stage is created
 	Repeat    int     `json:"repeat,omitempty"`    // execute the scenario this many times (samples scheduler-owned overlaps)
-	Twin      bool    `json:\"twin,omitempty\"`    // a second, independent instance of the same stage runs alongside on its own input and context
+	Twin      bool    `json:"twin,omitempty"`      // a second, independent instance of the same stage runs alongside on its own input and context
 	Par       int     `json:"par,omitempty"`       // fork stages: number of workers
 	Gated     bool    `json:"gated,omitempty"`     // fork stages: user calls block on gates opened by release moves
 	Monoid    int     `json:"monoid,omitempty"`    // fork.Fold: commutative monoid family member
